@@ -249,7 +249,7 @@ pub fn stages(ctx: &Ctx) -> Vec<Stage> {
         let cfg = anchor_cfgs(solver, prob.lip)[k].clone();
         run_case(rep, solver, if k % 2 == 0 { DimMode::Static } else { DimMode::Dynamic }, &prob, &cfg, 20_000, true);
     }));
-    let n_random = tier.pick(2_400, 120_000);
+    let n_random = tier.pick(12_000, 240_000);
     st.push(Stage::new("random", n_random, move |i, rep| {
         let mut rng = Rng::for_case(seed, "c01-random", i);
         let solver = Solver::ALL[(i % 7) as usize];
@@ -303,7 +303,7 @@ pub fn stages(ctx: &Ctx) -> Vec<Stage> {
     // end-time rounding: the clipped final step is t + (t_end - t), which does not always round to
     // t_end when the final step is longer than |t| (intervals starting at or straddling zero, a
     // handful of steps). Short, cheap solves, all adaptive solvers. (D5, D7, D13)
-    let n_end = tier.pick(24_000u64, 600_000u64);
+    let n_end = tier.pick(60_000u64, 1_200_000u64);
     st.push(Stage::new("end-time-rounding", n_end, move |i, rep| {
         let mut rng = Rng::for_case(seed, "c01-endtime", i);
         let solver = Solver::ADAPTIVE[(i % 6) as usize];
@@ -331,7 +331,7 @@ pub fn stages(ctx: &Ctx) -> Vec<Stage> {
     // start-up boundary: spans that are (nearly) whole multiples of the initial trial step around the
     // length of the multistep start-up, where an unshortened start-up adds up to the end time (D38:
     // one ulp past it) — many more problems than the general sweep, only the critical rows
-    let nb_prob = tier.pick(40u64, 600u64);
+    let nb_prob = tier.pick(120u64, 1_200u64);
     const BK: [usize; 7] = [0, 1, 2, 3, 4, 15, 16];
     st.push(Stage::new("startup-boundary", 4 * 3 * BK.len() as u64 * nb_prob, move |i, rep| {
         let pi = i % nb_prob;
